@@ -52,6 +52,7 @@ func (r *Runner) sampleCommit() {
 			}
 		}
 		st.leaderTerm = lt
+		w.O.CheckLatestCfg(in, in.R.GetConfiguration().Configuration())
 		if ci > st.lastCommit {
 			w.O.CommitRange(in, st.lastCommit+1, ci, fmt.Sprintf("CommitIndex()=%d on %s", ci, in.ID()))
 			st.lastCommit = ci
@@ -486,7 +487,10 @@ func (r *Runner) diagnoseNoLeader() string {
 	// while the others know a leader.
 	var maxOther uint64
 	for _, id := range r.ids {
-		if in := w.Servers[id].Inst; in != nil && !in.DeadLocked() && !in.Conf.PreVoteDisabled {
+		// (the servers that could win: the ones holding the most up-to-date log;
+		// a stale server dragged to the disruptor's term by its vote requests
+		// does not count)
+		if in := w.Servers[id].Inst; in != nil && !in.DeadLocked() && !in.Conf.PreVoteDisabled && last[id] == best {
 			if t := in.R.CurrentTerm(); t > maxOther {
 				maxOther = t
 			}
